@@ -69,7 +69,8 @@ class Parser:
         Returns:
             Parser.
         """
-        self._entrypoint_cell = cell
+        # own copy of the address: the translation fills the cell in place, the caller may reuse its object
+        self._entrypoint_cell = Cell(cell.title, cell.column, cell.row) if cell else None
         self._entrypoint_cell_has_been_changed = True
         return self
 
@@ -101,7 +102,8 @@ class Parser:
         context._sheets_size = excel.get_sheets_size()
 
         if self._entrypoint_cell:
-            CellTranslator.translate(self._entrypoint_cell, excel, context)
+            cell = self._entrypoint_cell
+            CellTranslator.translate(Cell(cell.title, cell.column, cell.row), excel, context)
         else:
             CellTranslator.translate_file(excel, context)
 
